@@ -32,8 +32,11 @@ Inductive level := LProxy | LGin | LMux.
    Late        answers late: returns a complete response once its context is done
    Slow        answers (complete) after a quarter of the endpoint timeout, or returns ctx.Err()
                if its context is done first; nothing is certain about what becomes of it, it only
-               moves the later derivations away from the arrival *)
-Inductive beh := Answer | Incomplete | Fail | NilResp | Hang | Late | Slow.
+               moves the later derivations away from the arrival
+   Mid         answers (complete) at 80 % of the endpoint timeout - after the 75 % deadline of a
+               concurrent stage, before the 85 % deadline of a merge - or returns ctx.Err() if its
+               context is done first *)
+Inductive beh := Answer | Incomplete | Fail | NilResp | Hang | Late | Slow | Mid.
 
 Record factors := { fm_num : Z; fm_den : Z; fc_num : Z; fc_den : Z }.
 (* the instantiation the source facts pin (Generated/Facts_timeouts.v) *)
@@ -137,7 +140,7 @@ Definition cancelled_at_return (c : config) (p : paths) (called : list nat) : li
 Definition is_late (b : beh) : bool := match b with Hang | Late => true | _ => false end.
 Definition beh_eqb (a b : beh) : bool :=
   match a, b with
-  | Answer, Answer | Incomplete, Incomplete | Fail, Fail | NilResp, NilResp | Hang, Hang | Late, Late | Slow, Slow => true
+  | Answer, Answer | Incomplete, Incomplete | Fail, Fail | NilResp, NilResp | Hang, Hang | Late, Late | Slow, Slow | Mid, Mid => true
   | _, _ => false
   end.
 Definition has (b : beh) (l : list beh) : bool := existsb (beh_eqb b) l.
@@ -151,12 +154,12 @@ Definition delivers_now (att : list beh) : bool :=
   | [b] => beh_eqb b Answer || beh_eqb b Incomplete
   | _ => has Answer att ||
          (has Incomplete att && negb (existsb is_late att) && negb (has Fail att) && negb (has NilResp att) &&
-          negb (has Slow att))
+          negb (has Slow att) && negb (has Mid att))
   end.
 
 (* ... returns only once its context is done *)
 Definition returns_late (att : list beh) : bool :=
-  negb (has Answer att) && negb (has Slow att) && existsb is_late att.
+  negb (has Answer att) && negb (has Slow att) && negb (has Mid att) && existsb is_late att.
 
 (* sequential mode: length of the prefix of backends that is certainly called *)
 Fixpoint certain_prefix (bs : list (list beh)) : nat :=
@@ -170,9 +173,26 @@ Definition certainly_called (c : config) (i : nat) : bool :=
 
 Fixpoint upto (a n : nat) : list nat := match n with O => [] | S k => a :: upto (S a) k end.
 
+(* a sole attempt that answers at 80 % of T is in time under every deadline the pipeline derives
+   for it (T behind a router, 85 % in a merge; it has no concurrent stage) and under a deadline
+   of the context handed in that lies beyond 85 % of T; outside sequential mode its answer then
+   certainly reaches the client - whatever the siblings do, in particular a sibling whose
+   concurrent stage gives up at 75 % *)
+Definition parent_after (c : config) (t : Z) : bool :=
+  match c_level c with
+  | LGin => true
+  | _ => match c_parent c with None => true | Some p => t <? p end
+  end.
+Definition mid_delivers (c : config) (i : nat) : bool :=
+  match nth i (c_backends c) [] with
+  | [Mid] => negb (multi c && c_seq c) && parent_after c (reduced 85 100 (c_T c))
+  | _ => false
+  end.
+
 (* backends whose data the client certainly receives *)
 Definition must_keys (c : config) : list nat :=
-  filter (fun i => certainly_called c i && delivers_now (nth i (c_backends c) [])) (upto 0 (nbackends c)).
+  filter (fun i => certainly_called c i &&
+                   (delivers_now (nth i (c_backends c) []) || mid_delivers c i)) (upto 0 (nbackends c)).
 
 (* backends whose deadline the return of the pipeline certainly has to wait for *)
 Definition must_wait (c : config) : list nat :=
